@@ -6,6 +6,7 @@ Local Open Scope N_scope.
 
 Inductive op :=
 | OpStatements (password : text) (gen_newfileuid : bool) (requests : list rq)
+| OpStatementsNamed (password : text) (gen_newfileuid : bool) (requests : list named)   (* some request is an instance of a subclass *)
 | OpAccounts (password : text) (dtacctup : pdate) (gen_newfileuid : bool)
 | OpTax (password : text) (years : list text) (acctnum recid : option text) (gen_newfileuid : bool)
 | OpProfile (dtprofup : pdate) (over_version : option N) (over_close : option bool) (gen_newfileuid : bool).
@@ -15,6 +16,7 @@ Inductive ccase := CCase (a : init_args) (uuids : list text) (dtclient : pdate) 
 Definition run_op (c : cfg) (uuids : list text) (dtclient : pdate) (o : op) : result composed :=
   match o with
   | OpStatements pw g rqs => request_statements c uuids dtclient pw g rqs
+  | OpStatementsNamed pw g rqs => request_statements_named c uuids dtclient pw g rqs
   | OpAccounts pw d g => request_accounts c uuids dtclient pw d g
   | OpTax pw ys an rid g => request_tax1099 c uuids dtclient pw ys an rid g
   | OpProfile d v cl g => request_profile c uuids dtclient d v cl g
